@@ -24,6 +24,7 @@ structure DState where
   srv    : Server.Srv := Server.Srv.init 0 0
   conn   : Conn.St := Conn.St.init false false
   sconn  : Sieve.Conn := ⟨none, false, 0⟩
+  ns     : Namespace.NS := ⟨0, [], [], 1⟩
   sstore : Sieve.Store := []
   lbox   : Mailbox.MBox := Mailbox.MBox.new
   lobs   : List (Sync.View × Option Nat) := []
@@ -133,6 +134,15 @@ def handle (st : DState) (line : String) : DState × String :=
       | none => []
       | some p => Sync.compare p fr (hide == "1") [] (wu == "1") false
     ({ st with prev := some fr }, if out.isEmpty then "-" else " ".intercalate (out.map showUntagged))
+  | ["ns", "reset"] => ({ st with ns := ⟨0, [], [], 1⟩ }, "ok")
+  | ["ns", "create", n] => let r := Namespace.create st.ns (parseNats n); ({ st with ns := r.1 }, if r.2 == .ok then "OK" else "NO")
+  | ["ns", "delete", n] => let r := Namespace.delete st.ns (parseNats n); ({ st with ns := r.1 }, if r.2 == .ok then "OK" else "NO")
+  | ["ns", "rename", f, t] => let r := Namespace.rename st.ns (parseNats f) (parseNats t); ({ st with ns := r.1 }, if r.2 == .ok then "OK" else "NO")
+  | ["ns", "list", ref, pat] =>
+    let es := Namespace.listMatching st.ns.names (parseNats ref) (parseNats pat)
+    (st, if es.isEmpty then "-" else " ".intercalate (es.map (fun e => s!"{showNats e.name}|{if e.exists_ then 1 else 0}|{if e.hasChildren then 1 else 0}")))
+  | ["ns", "ids"] => (st, s!"{st.ns.inboxId} " ++ " ".intercalate (st.ns.boxes.map (fun b => s!"{showNats b.1}={b.2}")))
+  | ["wild", ci, pat, name] => (st, if Namespace.wild (ci == "1") (parseNats pat) (parseNats name) then "1" else "0")
   | ["sieve", "reset", maxLen, tls] => ({ st with sconn := ⟨none, tls == "1", maxLen.toNat!⟩, sstore := [] }, "ok")
   | ["sieve", "newconn", maxLen, tls] => ({ st with sconn := ⟨none, tls == "1", maxLen.toNat!⟩ }, "ok")
   | ["sieve", "step", c] =>
